@@ -927,7 +927,7 @@ Local Notation compile_image := (PipelineCompile.compile_image to_snake).
 Definition declared_list (g : env) (d : decl_full) : option (list (list str * fty)) :=
   if is_query_request (df_req d) then
     match list_root (df_resp d) with
-    | Ok root => match walk_fields (S (length g)) g root [] [] with Ok l => Some l | _ => None end
+    | Ok root => match walk_fields (S (length g)) (cenv g) root [] [] with Ok l => Some l | _ => None end
     | _ => None
     end
   else None.
@@ -953,7 +953,6 @@ Definition valid_package (P : decl_package) : Prop :=
   (* every reference is to a declared schema, every field type is a Field alternative *)
   /\ all_refs_link (im_schemas (compile_image P)) = true
   /\ wf_env (im_schemas (compile_image P))
-  (* no flattened object fields (the client's merging of flattened objects is modelled and tied, but is not
-     part of this theorem) *)
-  /\ flat_free (im_schemas (compile_image P)).
+  (* flattened object fields do not form a cycle (ClientProperties would not return) *)
+  /\ client_env (im_schemas (compile_image P)) <> None.
 End Package.
